@@ -100,9 +100,13 @@ def run(ctx):
         "compile-time faults are compared as a set (the reported one must be among those present), not by pass order; "
         "a compile error whose message is none of the calibrated ones is accepted as long as status and outputs are right",
         "the property's list of invalid requests is taken as is: requests avo does not validate and that are not on the "
-        "list are modelled as accepted (status 0, output written): AllocLocal with a negative size, AddDatum with a "
-        "negative offset (C13 lists the assembler's rejection), Label(\"\"), duplicate function names, duplicate data "
-        "section names, newlines in Comment; negative sizes/offsets and Label(\"\") are not generated",
+        "list are modelled as accepted (status 0, output written): AllocLocal with a negative size, Label(\"\"), "
+        "duplicate function names, duplicate data section names, newlines in Comment; negative sizes and Label(\"\") "
+        "are not generated",
+        "AddDatum/DATA with a negative offset (rejected by avo since eebfead, message 'negative offset') is neither "
+        "modelled nor generated: offsets are natural numbers in the model; note that without an active data section "
+        "such a call records two messages (no active global + negative offset), i.e. one per fault of the call, which "
+        "the model's one-message-per-request step could not express",
         "function names that are not Go identifiers and Doc/Pragma text with a line break are not on the list either: "
         "the statement then demands only all-or-nothing (a failing generation writes nothing); the generated names are "
         "ASCII (the model's identifier syntax is the ASCII part of Go's), the broken texts are 3 fixed ones",
